@@ -7,8 +7,6 @@ import KlogV.Lemmas.Patterns
 import KlogV.Props.Tables
 import KlogV.Props.Rx.Periods
 import KlogV.Props.Rx.Model
-import KlogV.Props.GoCal
-import KlogV.Props.GoCalParse
 namespace KlogV.C15
 
 /-- The day after a valid date has the next day number. -/
